@@ -159,6 +159,9 @@ def check_cases():
         "dynamic-array overflow pattern (offset 2^64-1)": lambda: z3.Not(z3.ULE(h, z3.BitVecVal(2**64 - 1, 256) + h)),
         "dynamic-array overflow pattern (offset 1)": lambda: z3.Not(z3.ULE(h, z3.BitVecVal(1, 256) + h)),
         "overflow-like, offset 2^64 (outside the assumption)": lambda: z3.Not(z3.ULE(h, z3.BitVecVal(2**64, 256) + h)),
+        "overflow-like, offset 2^256-1 (hash - 1, a negative word: outside the assumption)": lambda: z3.Not(z3.ULE(h, z3.BitVecVal(2**256 - 1, 256) + h)),
+        "overflow-like, offset 2^255 (outside the assumption)": lambda: z3.Not(z3.ULE(h, z3.BitVecVal(2**255, 256) + h)),
+        "overflow-like, offset 2^256-2^63 (outside the assumption)": lambda: z3.Not(z3.ULE(h, z3.BitVecVal(2**256 - 2**63, 256) + h)),
         "overflow-like, symbolic offset": lambda: z3.Not(z3.ULE(h, off + h)),
         "overflow-like, different bases": lambda: z3.Not(z3.ULE(h, z3.BitVecVal(1, 256) + f_sha3(off))),
         "overflow-like, not a hash": lambda: z3.Not(z3.ULE(slot, z3.BitVecVal(1, 256) + slot)),
